@@ -536,8 +536,8 @@ example (st : ExecSt) :
 /-- **A `command` condition that cannot be run is an error, not "no match".**  When /dev/null cannot be opened, `fork` or
 `waitpid` fails, or the child exits with 127 (its `execvp` failed), the condition evaluates to ERROR - the verdict
 `C04_message_error_iff` turns into the error flag of the run - and the match list is untouched.  (Hypothesis `hrc`: the
-environment's command oracle is `exec()`, see `C13_status`; in `Model.processMessage` the oracle is still the constant -1,
-DESIGN 9.4.) -/
+environment's command oracle is `exec()`, see `C13_status`; inside the run of `Model.processMessage` the condition issues the
+calls itself and the oracle IS `exec()` on their results: `C04_command_failure_is_error_run` below.) -/
 theorem C04_command_failure_is_error (env : Env) (root : Msg) (lno : Nat) (argv av : List Bytes) (part : Nat) (m : Msg) (st : St)
     (hav : argv.mapM (interpolate st.ml none) = some av)
     (d : Bool) (f w : Res) (hrc : env.command av = Model.execValue d f w)
